@@ -16,7 +16,7 @@ Parsers:
   ParseNumber<T>        std::stof/stod/stold are summarised by their documented contract (the parsed value - any value of
                         the type - or std::invalid_argument or std::out_of_range) on an arbitrary std::string: every
                         path returns normally, with the parsed value or with nothing.
-  ParseEnumeration<E>   for each of the 39 enumerations: every byte string of length 0..N (N = 2 quick, 3 thorough;
+  ParseEnumeration<E>   for each of the 39 enumerations: every byte string of length 0..N (N = 4 quick, 6 thorough;
                         all 256 byte values, NUL and non-ASCII included) - symbolic bytes - and the unbounded
                         "arbitrary string" model of C08: returns a declared enumerator or nothing, never throws.
 
@@ -275,6 +275,10 @@ def family_dimensions():
     return ws
 
 
+def PARSE_LEN():
+    return int(os.environ.get('PHQV_PARSE_LEN') or (6 if core.tier() == 'thorough' else 4))
+
+
 def family_parse(inv, tb, N):
     ws = []
     for q, e in sorted(tb.items()):
@@ -298,6 +302,19 @@ def family_number():
         ct = CT[T]
         body = 'const std::optional<%s> r = PhQ::ParseNumber<%s>(phqv_arbitrary_string()); iout[0] = r.has_value(); out[0] = r.has_value() ? *r : 0;' % (ct, ct)
         ws.append((H.Wrapper('w_parsenumber_' + T, T, 0, T, 1, body, n_iout=1, flatten=False, meta={'number': T}), 'ParseNumber<%s> on an arbitrary string' % ct))
+    return ws
+
+
+def family_number_bytes(N):
+    """ParseNumber<T> on every byte string of length 0..N (symbolic bytes; std::sto* by contract)"""
+    ws = []
+    for T in C.TYPES:
+        ct = CT[T]
+        for L in range(N + 1):
+            body = ('char buf[%d]; %s const std::string s(buf, %dUL); const std::optional<%s> r = PhQ::ParseNumber<%s>(s); iout[0] = r.has_value(); out[0] = r.has_value() ? *r : 0;' % (
+                max(1, L), ' '.join('buf[%d] = (char)iin[%d];' % (i, i) for i in range(L)), L, ct, ct))
+            ws.append((H.Wrapper('w_parsenumber%d_%s' % (L, T), T, 0, T, 1, body, n_iout=1, n_iin=max(1, L), flatten=False, meta={'numberbytes': T, 'strlen': L, 'max_paths': 20000}),
+                       'ParseNumber<%s> on every byte string of length %d' % (ct, L)))
     return ws
 
 
@@ -410,8 +427,9 @@ def main():
                 notes.append('%s: %s' % (name, d))
         add('pure', 'pure_' + T, [(w, '%s<%s>' % (d, CT[T])) for name, w, d in fam if w is not None], 32 if T == 'f64' else 16)
     add('tables', 'tables', family_tables(inv, tb), 8, ['-fno-inline'])
-    add('tables', 'parse', family_parse(inv, tb, 3 if thorough else 2), 8, ['-fno-inline'])
+    add('tables', 'parse', family_parse(inv, tb, PARSE_LEN()), 8, ['-fno-inline'])
     add('tables', 'number', family_number(), 1, ['-fno-inline'], includes=['PhQ/Base.hpp'])
+    add('tables', 'numberbytes', family_number_bytes(min(PARSE_LEN(), 4)), 3, ['-fno-inline'], includes=['PhQ/Base.hpp'])
     add('tables', 'dims', family_dimensions(), 4, ['-fno-inline'], includes=['PhQ/Dimensions.hpp'])
     for T in C.TYPES:
         pw = family_print(inv, tb, T)
@@ -422,7 +440,7 @@ def main():
     results = engine.run_units(specs, worker, work)
     engine.collect(rep, results)
     rep.notes += notes
-    rep.bounds = {'numeric_types': list(C.TYPES) if thorough else ['double (thorough: all three)'], 'parse_string_length': 3 if thorough else 2,
+    rep.bounds = {'numeric_types': list(C.TYPES) if thorough else ['double (thorough: all three)'], 'parse_string_length': PARSE_LEN(),
                   'paths_per_wrapper_max': 20000, 'enumerations': len(tb)}
     rep.assumptions = ['events are those the executor tracks (see the module docstring); floating-point operations have no undefined behaviour under IEEE 754',
                        'std::stof/stod/stold: documented contract only (value, std::invalid_argument or std::out_of_range)',
